@@ -142,8 +142,9 @@ options_get_info(options_t     *options,     /* global options */
             *info      = obj->comp.info;
             *szip_mode = obj->comp.szip_mode;
 
-            /* chunk and compress */
-            if (*chunk_flags == HDF_CHUNK && *comp_type > 0) {
+            /* chunk and compress; an object that stays chunked as it is in the input
+               (the global chunk rank does not apply to it) gets the compression too */
+            if ((*chunk_flags == HDF_CHUNK) || (*chunk_flags == (HDF_CHUNK | HDF_COMP))) {
                 /* assign the object CHUNK information   */
                 *chunk_flags              = HDF_CHUNK | HDF_COMP;
                 chunk_def->comp.comp_type = obj->comp.type;
@@ -174,9 +175,11 @@ options_get_info(options_t     *options,     /* global options */
                         printf("Error: Unrecognized compression code in %d <%s>\n", obj->comp.type, path);
                         break;
                 }; /*switch */
-                for (i = 0; i < rank; i++) {
-                    /* To use chunking with RLE, Skipping Huffman, and GZIP compression */
-                    chunk_def->comp.chunk_lengths[i] = options->chunk_g.chunk_lengths[i];
+                if (options->chunk_g.rank == rank) {
+                    for (i = 0; i < rank; i++) {
+                        /* To use chunking with RLE, Skipping Huffman, and GZIP compression */
+                        chunk_def->comp.chunk_lengths[i] = options->chunk_g.chunk_lengths[i];
+                    }
                 }
             } /* chunk_flags */
         }     /* obj */
@@ -210,8 +213,8 @@ options_get_info(options_t     *options,     /* global options */
                 *comp_type = obj->comp.type;
                 *info      = obj->comp.info;
                 *szip_mode = obj->comp.szip_mode;
-                /* check if we have also CHUNK info  */
-                if (obj->chunk.rank > 0) {
+                /* check if we have also CHUNK info, from the table or from the input object */
+                if ((*chunk_flags == HDF_CHUNK) || (*chunk_flags == (HDF_CHUNK | HDF_COMP))) {
                     *chunk_flags              = HDF_CHUNK | HDF_COMP;
                     chunk_def->comp.comp_type = *comp_type;
                     switch (*comp_type) {
@@ -339,8 +342,8 @@ options_get_info(options_t     *options,     /* global options */
         *comp_type = options->comp_g.type;
         *info      = options->comp_g.info;
         *szip_mode = options->comp_g.szip_mode;
-        /* check if we can apply CHUNK */
-        if (options->chunk_g.rank == rank) {
+        /* check if we can apply CHUNK, or the object stays chunked as it is in the input */
+        if ((*chunk_flags == HDF_CHUNK) || (*chunk_flags == (HDF_CHUNK | HDF_COMP))) {
             *chunk_flags              = HDF_CHUNK | HDF_COMP;
             chunk_def->comp.comp_type = *comp_type;
             switch (*comp_type) {
